@@ -1,2 +1,3 @@
 pub mod damage;
 pub mod tokens;
+pub mod grammar;
